@@ -70,7 +70,9 @@ TRet == /\ Trace[l].ev = "ret"
         /\ IF bad THEN Skip
            ELSE LET e == Trace[l]
                     what == CASE e.ret = "hang" -> "hang"
+                              [] e.ret = "skipped" -> "none"          \* not executed (hang budget of the harness used up)
                               [] e.ret = "panic" -> "panic"
+                              [] e.ret = "crash" -> "crash"           \* the process died (a panic outside Parse's recover)
                               [] L.fn # "done" \/ e.leak > 0 -> "lexer-running-at-return"
                               [] e.ret = "ok" /\ (lastRecv # "EOF" \/ drained) -> "ok-without-eof"
                               [] e.ret = "ok" /\ ~e.root -> "ok-without-root"
